@@ -494,7 +494,17 @@ def program_c03(rnd):
                 if fields and rnd.random() < 0.7:
                     body.append(Print(*[Prop(Self(), f) for f in fields if f != "m"][:2] or [Nil()]))
                 if mname in inherited["methods"] and rnd.random() < 0.6:
-                    body.append(Print(Str("super->"), SuperInvoke(mname, [])))
+                    how = rnd.random()
+                    if how < 0.5:
+                        body.append(Print(Str("super->"), SuperInvoke(mname, [])))
+                    elif how < 0.7:
+                        # the super method as a value: kept in a local and called later / handed to a function as its last argument
+                        body.append(Let(fresh("sg"), SuperGet(mname)))
+                        body.append(Print(Str("super->"), Call(Var(f"sg{n[0]}"), [])))
+                    elif how < 0.85:
+                        body.append(Print(Str("super->"), Call(Lambda(["f"], Call(Var("f"), [])), [SuperGet(mname)])))
+                    else:
+                        body.append(Print(Str("super->"), Call(Lambda(["a", "f"], Bin("+", Var("a"), Call(Var("f"), []))), [Str("via:"), SuperGet(mname)])))
                 if mname == "m" and ("n" in methods or "n" in inherited["methods"]) and rnd.random() < 0.4:
                     body.append(Print(Str("self.n->"), Invoke(Self(), "n", [])))
                 body.append(Return(Str(f"r{cname}{mname}")))
